@@ -474,6 +474,15 @@ def rule_symclass(P, scope=("cfg.py", "cfglm.py", "parse/")):
                     lhs = nd.left
                     k = K.kind(lhs)
                     body_sym = k == S and _from_body(f, lhs)
+                    if not body_sym and isinstance(lhs, ast.Name) and f.outer is not None and lhs.id in f.params:
+                        # a parameter of a nested helper: judged by what the enclosing function passes for it
+                        idx = f.params.index(lhs.id)
+                        Ko = kinds_for(P, f.outer)
+                        for c in walk_live(f.outer.node, into_nested=True):
+                            if isinstance(c, ast.Call) and isinstance(c.func, ast.Name) and c.func.id == f.name and len(c.args) > idx:
+                                a_ = c.args[idx]
+                                if W_.enclosing_function(c) is f.outer.node and Ko.kind(a_) == S and _from_body(f.outer, a_):
+                                    body_sym = True
                     n += 1
                     r.looked_at(f)
                     r.add(f, nd, not body_sym,
